@@ -493,6 +493,9 @@ def run(ctx):
     # reactant coefficients of their own (cell, reaction, species)
     borrow(ctx, "C07", _c01.rule_layout, tu, _idx.Idx(tu), ctx.py)
     from .. import lints as _l
+    # shared clause: every direction of the neighbour table is scanned where diffusion events are listed and drawn (C15.NBR-USE)
+    from . import c15 as _c15
+    borrow(ctx, "C07", _c15.rule_nbr_use, tu)
     _l.run(ctx, "C07", ctx.py, ["librdengine"])
     ctx.assume("NOT decided: that waiting times and event choices follow the master-equation distribution, the Poisson "
                "law of tau-leap counts, non-negativity of states, strict increase of time (distributional / value-level)")
